@@ -422,10 +422,15 @@ func scanHandovers(repo string, files map[string]*ast.File) []handoverRec {
 	_, setter, before := limiterHook(get(limFile))
 	for _, cf := range []string{"udp/client/conn.go", "tcp/client/conn.go"} {
 		f := get(cf)
-		// Conn.Ping (optional: without it Client.Ping is promoted) → Client.Ping
+		// Conn.Ping (optional: without it Client.Ping is promoted): either a wrapper → Client.Ping, or a waiter of its own
+		// (it then has a select, listed among the waits with this file, and calls asyncPing itself)
 		if fd := optFuncDecl(f, "Conn", "Ping"); fd != nil {
-			if wrapperHandover(cf+": Conn.Ping", fd, "cc.Client.Ping") {
-				out = append(out, handoverRec{cf, "Conn.Ping", "Client.Ping"})
+			if wsContainsCall(fd, "cc.Client.Ping") {
+				if wrapperHandover(cf+": Conn.Ping", fd, "cc.Client.Ping") {
+					out = append(out, handoverRec{cf, "Conn.Ping", "Client.Ping"})
+				}
+			} else if len(scanWaits(waitAnchor{cf, "Conn", "Ping"}, fd)) == 0 {
+				fail("%s: Conn.Ping neither calls cc.Client.Ping nor waits itself", cf)
 			}
 		}
 		// Conn.doObserve → Handler.NewObservation (its only caller in the file)
@@ -458,6 +463,12 @@ func genWaitShape(g *gen, repo string) {
 			files[a.file] = f
 		}
 		recs = append(recs, scanWaits(a, funcDecl(f, a.recv, a.fn))...)
+	}
+	// the transports' own Conn.Ping, when it exists (a wrapper of Client.Ping has no blocking construct of its own)
+	for _, cf := range []string{"udp/client/conn.go", "tcp/client/conn.go"} {
+		if fd := optFuncDecl(files[cf], "Conn", "Ping"); fd != nil {
+			recs = append(recs, scanWaits(waitAnchor{cf, "Conn", "Ping"}, fd)...)
+		}
 	}
 	if len(recs) < 8 {
 		fail("only %d blocking constructs found", len(recs))
